@@ -305,6 +305,22 @@ inline void rm_tmp_dir(const std::string& d) {
   std::string cmd = "rm -rf '" + d + "'"; int rc = system(cmd.c_str()); (void)rc;
 }
 
+// does an open known finding of the running check (ctx.known) with "kind" = kind match these fields?  (Used with
+// Isolator::skip_confirm.)  On replay no known findings are loaded, so a replay always does the full confirmation.
+inline bool matches_known(const mc::Ctx& ctx, const std::string& kind, const mc::Fields& fields) {
+  for (auto& k : ctx.known) {
+    if (k.sub != "*" && k.sub != ctx.cur_sub) continue;
+    bool ok = true, haskind = false;
+    for (auto& m : k.match) {
+      if (m.first == "kind") { haskind = true; if (m.second != kind) { ok = false; break; } continue; }
+      bool f = false; for (auto& fv : fields) if (fv.first == m.first && fv.second == m.second) { f = true; break; }
+      if (!f) { ok = false; break; }
+    }
+    if (ok && haskind) return true;
+  }
+  return false;
+}
+
 // ------------------------------------------------------------------------------------------- fork isolation
 struct Fail { std::string key, msg; mc::Fields fields; };
 
@@ -445,6 +461,10 @@ class Isolator {
   size_t slot_bytes = 6144;         // capacity of one case's report
   size_t batch = 256;               // cases per child at most
   uint64_t forks = 0, slow_cases = 0;
+  // Optional: when set and true for case i, a case that exceeds the watchdog is reported as HANG at once, without the
+  // 60 s solo re-run.  Meant for cases that match an OPEN KNOWN hang finding (the re-run only serves to tell "slow"
+  // from "hang" for a new anomaly; every confirmed hang costs a minute of wall time on every run).
+  std::function<bool(size_t)> skip_confirm;
 
   Isolator(const std::string& dir, const std::string& tag) : dir_(dir) {
     mkdirs(dir_);
@@ -559,6 +579,10 @@ class Isolator {
         // the child died while executing case i (state 1), or before starting it (state 0: died between cases)
         Result r; parse_slot(i, r); r.fails.clear();
         classify_death(st, r);
+        if (r.oc == TIMEOUT && skip_confirm && skip_confirm(base + i)) {
+          r.oc = HANG; r.what = "no result within the " + std::to_string((int)case_timeout_s) + " s watchdog (matches an open known hang finding: not re-run with " + std::to_string((int)retry_timeout_s) + " s)";
+          sink(base + i, r); next = i + 1; continue;
+        }
         if (r.oc == TIMEOUT) {
           slot(i)->state = 0; slot(i)->len = 0;
           int st2 = child_run(base, i, i + 1, body, retry_timeout_s);
